@@ -142,6 +142,7 @@ def plan(prop, tier):
         mc = [("A", 3, "any", "single")] if q else [("A", 3, "any", "all"), ("B", 3, "any", "single")]
         bs = [B("A", 3, mode="any", runs=runs_prefixes, configs=cfg_two_methods, sample=4000 if q else None),
               B("A", 3 if q else 4, sample=None if not q else 4000), B("B", 3, mode="any", runs=runs_prefixes, configs=cfg_one_method, sample=1500 if q else None),
+              B("C", 3, configs=cfg_two_methods, sample=2500 if q else None),
               B("D", 2 if q else 3, mode="any", runs=runs_prefixes, configs=cfg_two_methods),
               B("A", 12, sim=150 if q else 3000, depth=12)]
     elif prop == "C03":
@@ -181,7 +182,7 @@ def plan(prop, tier):
               B("Y", 3, runs=runs_todates, configs=cfg_two_methods, sample=800 if q else None),
               B("B", 3, runs=runs_todates, configs=cfg_one_method, sample=600 if q else None),
               B("Z", 3 if q else 4, runs=runs_todates, configs=cfg_two_methods, sample=600 if q else 20000),
-              B("C", 3, runs=runs_prefixes, configs=cfg_methods, sample=500 if q else 10000),
+              B("C", 3, runs=runs_prefixes, configs=cfg_two_methods, sample=2500 if q else 20000),
               B("A", 12, sim=100 if q else 2000, depth=12, runs=runs_todates, configs=cfg_two_methods)]
     elif prop == "C10":
         mc = [("Y", 3, "valid", "single")] if q else [("Y", 4, "valid", "single")]
